@@ -5,7 +5,8 @@ from __future__ import annotations
 import ast
 
 from ..astutil import (
-    call_name, calls_in, enclosing_stmt, guard_atoms, lexical_guards, name_stores, unparse, walk_local,
+    block_of, call_name, calls_in, dotted, enclosing_stmt, guard_atoms, lexical_guards, mutating_calls, name_stores,
+    subscript_stores, test_atoms, unparse, walk_local,
 )
 from ..report import Registry, sub
 from ._helpers_rules_b import (
@@ -109,8 +110,17 @@ def _pair_sites(ctx, f, sets):
         elif fn_.attr == "update" and len(c.args) == 1 and isinstance(c.args[0], (ast.GeneratorExp, ast.ListComp, ast.SetComp)) \
                 and isinstance(c.args[0].elt, ast.Tuple):
             out.append((fn_.attr, c, c.args[0].elt))
+        elif fn_.attr in ("add", "discard", "remove") and len(c.args) == 1 and isinstance(c.args[0], ast.Name) \
+                and c.args[0].id in _error_edge_vars(f):
+            out.append((fn_.attr, c, c.args[0]))   # a whole edge of <err>.edges (orientation: see _gen_edges below)
     out.sort(key=lambda x: (x[1].lineno, x[1].col_offset))
     return out
+
+
+def _error_edge_vars(f):
+    """loop variables of `for edge in <err>.edges`"""
+    return {n.target.id for n in walk_local(f.node)
+            if isinstance(n, ast.For) and isinstance(n.target, ast.Name) and isinstance(n.iter, ast.Attribute) and n.iter.attr == "edges"}
 
 
 @R.rule("C14-R1", floor=7, template="T-TABLE",
@@ -142,6 +152,9 @@ def r1(ctx):
     table = next(iter(loop_vars))
     for key, (meth, c, tup) in ordinal_keys(sites, lambda s: f"{STC}:{s[1].func.value.id}.{s[0]}"):
         loc = f"{f.module.path}:{c.lineno}"
+        if isinstance(tup, ast.Name):
+            ctx.ok(key, f"`{tup.id}` is an edge reported by CircularDependencyError.edges (orientation checked at _gen_edges)")
+            continue
         ctx.require(len(tup.elts) == 2 and all(isinstance(e, ast.Name) for e in tup.elts),
                     f"dependency pair `{unparse(tup)}` is not a 2-tuple of names")
         names = [e.id for e in tup.elts]
@@ -359,6 +372,644 @@ def r3(ctx):
         judge(key, f, a, f"{f.module.path}:{c.lineno}", 0)
 
 
+# ------------------------------------------------------------------ R4: inline <=> edge kept, deferred <=> edge dropped
+FKCS = "foreign_key_constraints"
+
+
+def _deferred_set(ctx, f):
+    """name of the set returned as the `(None, [deferred constraints])` entry, and the return statement"""
+    rets = [r for r in walk_local(f.node) if isinstance(r, ast.Return) and r.value is not None]
+    ctx.require(len(rets) == 1, "sort_tables_and_constraints: expected one return")
+    cands = []
+    for t in ast.walk(rets[0].value):
+        if isinstance(t, ast.Tuple) and len(t.elts) == 2 and isinstance(t.elts[0], ast.Constant) and t.elts[0].value is None:
+            cands = sorted({n.id for n in ast.walk(t.elts[1]) if isinstance(n, ast.Name)} - {"list", "tuple", "set", "sorted"})
+    ctx.require(len(cands) == 1, f"cannot name the deferred-constraint set of the (None, ..) entry: {cands}")
+    return cands[0], rets[0]
+
+
+def _is_fkcs_of(e, table: str) -> bool:
+    return isinstance(e, ast.Attribute) and e.attr == FKCS and isinstance(e.value, ast.Name) and e.value.id == table
+
+
+def _subst(test, env):
+    """copy of `test` with Names replaced according to env {name: ast expr | str}"""
+    class T(ast.NodeTransformer):
+        def visit_Name(self, n):
+            r = env.get(n.id)
+            if r is None:
+                return n
+            return ast.Name(id=r, ctx=ast.Load()) if isinstance(r, str) else r
+    import copy
+    return T().visit(copy.deepcopy(test))
+
+
+C_ = "_constraint_"
+
+
+def _norm(test, cvar, env):
+    """`test` with single-assignment locals replaced by their value and the constraint variable normalised"""
+    return _subst(_subst(test, env), {cvar: C_})
+
+
+def _dnf(test, pol=True):
+    """disjunctive normal form of (test == pol): list of conjunctions [(atom text, polarity), ..]"""
+    if isinstance(test, ast.UnaryOp) and isinstance(test.op, ast.Not):
+        return _dnf(test.operand, not pol)
+    if isinstance(test, ast.BoolOp):
+        conj = (isinstance(test.op, ast.And) and pol) or (isinstance(test.op, ast.Or) and not pol)
+        parts = [_dnf(v, pol) for v in test.values]
+        if conj:
+            out = [[]]
+            for p_ in parts:
+                out = [a + b for a in out for b in p_]
+            return out
+        return [c for p_ in parts for c in p_]
+    return [test_atoms(test, pol)]
+
+
+def _constraint_atoms(guards, cvar, env):
+    """atoms (text, polarity) of the guards that talk about the constraint, with the constraint variable
+    normalised and single-assignment locals replaced by their value"""
+    out = []
+    for t, pol in guards:
+        for text, p in test_atoms(_norm(t, cvar, env), pol):
+            if C_ in text:
+                out.append((text, p))
+    return out
+
+
+def _collection_origin(ctx, f, expr, table, scope, depth=0):
+    """Where do the constraints in `expr` (a collection, or one constraint) come from?
+    -> ("family", cvar, conds, label)   iteration over <table>.foreign_key_constraints, conds = [(test, pol)]
+       ("single", dictname, store)      one value looked up in a local dict filled with `D[k] = v`
+       ("multi", dictname, None)        the members of a multi-valued local index `D[k].append/add(v)`
+       None                             not understood"""
+    if depth > 5:
+        return None
+    pm = f.module.parents()
+    if isinstance(expr, (ast.ListComp, ast.SetComp, ast.GeneratorExp)) and len(expr.generators) == 1:
+        g0 = expr.generators[0]
+        if isinstance(expr.elt, ast.Name) and isinstance(g0.target, ast.Name) and expr.elt.id == g0.target.id:
+            if _is_fkcs_of(g0.iter, table):
+                return ("family", g0.target.id, [(t, True) for t in g0.ifs], unparse(expr)[:60])
+            inner = _collection_origin(ctx, f, g0.iter, table, scope, depth + 1)
+            if inner and inner[0] == "family":
+                # a further filter over an already derived family: rename its constraint variable to ours
+                conds = [(_subst(t, {inner[1]: g0.target.id}), p) for t, p in inner[2]]
+                return ("family", g0.target.id, conds + [(t, True) for t in g0.ifs], unparse(expr)[:60])
+            return inner
+        return None
+    if _is_fkcs_of(expr, table):
+        return ("family", None, [], unparse(expr))
+    if isinstance(expr, ast.Call) and isinstance(expr.func, ast.Name) and expr.func.id in ("list", "set", "tuple", "sorted", "frozenset") \
+            and len(expr.args) >= 1:
+        return _collection_origin(ctx, f, expr.args[0], table, scope, depth + 1)
+    if isinstance(expr, ast.Subscript) and isinstance(expr.value, ast.Name):
+        d = expr.value.id
+        plain = [st for nm, sub_, st in subscript_stores(f.node) if nm == d and isinstance(st, ast.Assign)]
+        grown = [c for recv, meth, c in mutating_calls(f.node)
+                 if meth in ("append", "add", "extend", "update") and (recv.startswith(d + "[") or recv.startswith(d + ".setdefault") or recv == d + "[]")]
+        if not grown:
+            # dotted() of a subscripted receiver may be None: look at the AST directly
+            for c in calls_in(f.node):
+                fn_ = c.func
+                if isinstance(fn_, ast.Attribute) and fn_.attr in ("append", "add", "extend", "update"):
+                    r = fn_.value
+                    if isinstance(r, ast.Subscript) and isinstance(r.value, ast.Name) and r.value.id == d:
+                        grown.append(c)
+                    if isinstance(r, ast.Call) and isinstance(r.func, ast.Attribute) and r.func.attr == "setdefault" \
+                            and isinstance(r.func.value, ast.Name) and r.func.value.id == d:
+                        grown.append(c)
+        if plain and not grown:
+            return ("single", d, plain[0])
+        if grown and not plain:
+            return ("multi", d, None)
+        return None
+    if isinstance(expr, ast.Name):
+        binds = [(v, st) for n, v, st in name_stores(f.node) if n == expr.id and any(st is x or _inside(pm, st, scope) for x in [scope])]
+        if len(binds) != 1:
+            return None
+        v, st = binds[0]
+        if v is not None:
+            return _collection_origin(ctx, f, v, table, scope, depth + 1)
+        if isinstance(st, (ast.For, ast.AsyncFor)) and isinstance(st.target, ast.Name):
+            inner = _collection_origin(ctx, f, st.iter, table, scope, depth + 1)
+            if inner and inner[0] == "family":
+                conds = [(_subst(t, {inner[1]: expr.id}) if inner[1] else t, p) for t, p in inner[2]]
+                return ("family", expr.id, conds, inner[3])
+            if inner and inner[0] == "multi":
+                return inner
+            if inner and inner[0] == "single":
+                return inner
+        return None
+    return None
+
+
+def _inside(pm, node, scope) -> bool:
+    cur = node
+    while cur is not None:
+        if cur is scope:
+            return True
+        cur = pm.get(cur)
+    return False
+
+
+@R.rule("C14-R4", floor=6, template="T-SIBLING/T-PATH",
+        desc="in sort_tables_and_constraints a foreign key constraint is either rendered inline AND its ordering pair is "
+             "kept, or deferred to ALTER AND its pair dropped: constraints that bypass the pair are deferred; the cycle "
+             "handler defers the whole family <table>.foreign_key_constraints (not one constraint per pair), discards "
+             "pairs only of deferred constraints, keeps the pair of every constraint it leaves inline; the inline "
+             "include list and the ALTER list of the result are complementary")
+def r4(ctx):
+    f = ctx.func(STC)
+    ctx.functions_analysed.add(f.key)
+    pm = f.module.parents()
+    g = ctx.cfg(f)
+    R_, ret = _deferred_set(ctx, f)
+    tables_p = f.params[0]
+    tloops = [n for n in walk_local(f.node) if isinstance(n, ast.For) and isinstance(n.target, ast.Name)
+              and isinstance(n.iter, ast.Name) and n.iter.id == tables_p]
+    ctx.require(len(tloops) == 1, f"expected one loop over `{tables_p}`")
+    table = tloops[0].target.id
+    closs = [n for n in walk_local(tloops[0]) if isinstance(n, ast.For) and isinstance(n.target, ast.Name) and _is_fkcs_of(n.iter, table)]
+    ctx.require(len(closs) == 1, f"expected one loop over `{table}.{FKCS}` in the dependency-building loop")
+    cloop = closs[0]
+    cvar = cloop.target.id
+    # single-assignment locals of the constraint loop (e.g. `filtered = filter_fn(fkc)`)
+    env = {}
+    stores = [(n, v) for n, v, st in name_stores(cloop) if v is not None and n != cvar]
+    for n, v in stores:
+        if sum(1 for n2, _ in stores if n2 == n) == 1:
+            env[n] = v
+
+    def is_defer(st, var):
+        return isinstance(st, ast.Expr) and isinstance(st.value, ast.Call) and dotted(st.value.func) in (f"{R_}.add",) \
+            and len(st.value.args) == 1 and isinstance(st.value.args[0], ast.Name) and st.value.args[0].id == var
+
+    # (a) every `continue` of the constraint loop (a constraint that contributes no pair) is preceded, within the
+    #     iteration, by `<deferred>.add(<constraint>)`
+    conts = [n for n in walk_local(cloop) if isinstance(n, ast.Continue)
+             and next((a for a in _anc(pm, n) if isinstance(a, (ast.For, ast.While))), None) is cloop]
+    conts.sort(key=lambda n: n.lineno)
+    ctx.require(conts, "the constraint loop has no `continue` (deferral of use_alter / filtered constraints not recognised)")
+    head = g.nodes_for(cloop)
+    ctx.require(len(head) == 1, "constraint loop head not unique in the CFG")
+    starts = head
+    defer_nodes = [n.id for n in g.nodes if n.kind == "stmt" and n.stmt is not None and is_defer(n.stmt, cvar)]
+    skip_conj = []
+    for key, cn in ordinal_keys(conts, lambda c: f"{STC}:skipped-constraint-is-deferred"):
+        tn = g.nodes_for(cn)
+        ctx.require(tn, "continue statement not in the CFG")
+        wit = g.must_pass(starts, tn, defer_nodes) if defer_nodes else ["no statement adds the constraint to the deferred set"]
+        guards = lexical_guards(pm, cn, stop=cloop)
+        atoms = _constraint_atoms(guards, cvar, env)
+        skip_conj.append(atoms)
+        ctx.check(wit is None, key,
+                  f"a constraint that is skipped as a dependency ({(' and '.join(t if p else 'not ' + t for t, p in atoms) or 'continue').replace(C_, cvar)}) "
+                  f"is not added to `{R_}` on every path: it is neither ordered for inline rendering nor emitted by ALTER",
+                  f"skipped when {atoms}: added to `{R_}` first", f"{f.module.path}:{cn.lineno}", wit)
+    # ------------------------------------------------------------------ the cycle handler
+    handler = None
+    for n in walk_local(f.node):
+        if isinstance(n, ast.Try):
+            for h in n.handlers:
+                if h.type is not None and (dotted(h.type) or "").endswith("CircularDependencyError"):
+                    handler = h
+    ctx.require(handler is not None, "no `except CircularDependencyError` handler")
+    evars = _error_edge_vars(f)
+    htables = set()
+    for nm, v, st in name_stores(handler):
+        if isinstance(v, ast.Subscript) and isinstance(v.value, ast.Name) and v.value.id in evars:
+            htables.add(nm)
+    ctx.require(len(htables) == 1, f"cycle handler: dependent table of an edge not bound exactly once ({htables})")
+    htable = next(iter(htables))
+    topo_sort = ctx.func(f"{TOPO}::sort")
+    pair_sets = set()
+    for c in calls_in(f.node):
+        if (call_name(c) or "").endswith("topological.sort"):
+            a = arg_for(c, topo_sort, topo_sort.params[0])
+            if a is not None:
+                pair_sets |= {n.id for n in ast.walk(a) if isinstance(n, ast.Name)}
+    # deferral sites of the handler
+    dsites = []
+    for c in calls_in(handler):
+        if isinstance(c.func, ast.Attribute) and isinstance(c.func.value, ast.Name) and c.func.value.id == R_ \
+                and c.func.attr in ("add", "update") and len(c.args) == 1:
+            dsites.append(c)
+    ctx.require(dsites, f"the cycle handler defers nothing (no `{R_}.add/update`)")
+    deferred_cond_atoms = []   # exclusion atoms per deferral site
+    deferred_names = set()
+    for key, c in ordinal_keys(dsites, lambda c: f"{STC}:cycle-handler:deferral-covers-table"):
+        loc = f"{f.module.path}:{c.lineno}"
+        org = _collection_origin(ctx, f, c.args[0], htable, handler)
+        ctx.require(org is not None, f"cycle handler: cannot tell where `{unparse(c.args[0])[:50]}` (deferred) comes from")
+        if isinstance(c.args[0], ast.Name):
+            deferred_names.add(c.args[0].id)
+        if org[0] == "single":
+            ctx.violation(key,
+                          f"the cycle handler defers `{unparse(c.args[0])[:40]}`, ONE constraint looked up in `{org[1]}` which is "
+                          f"filled with `{unparse(org[2])[:70]}` (one value per dependency pair). Several foreign key "
+                          f"constraints of a table may refer to the same table and share the pair: the others stay inline in "
+                          f"CREATE TABLE while the shared ordering pair is discarded", loc)
+            continue
+        if org[0] == "multi":
+            ctx.ok(key, f"defers every constraint indexed under the pair in `{org[1]}`")
+            continue
+        kind, v, conds, label = org
+        extra = lexical_guards(pm, enclosing_stmt(pm, c), stop=handler)
+        if v is not None:
+            # constraints NOT deferred: negate each inclusion test that talks about the constraint
+            exc_atoms = []
+            for t, p in conds + extra:
+                t2 = _norm(t, v, {})
+                if C_ in unparse(t2):
+                    exc_atoms.extend(_dnf(t2, not p))
+            deferred_cond_atoms.append((c, exc_atoms))
+        else:
+            deferred_cond_atoms.append((c, []))
+        ctx.ok(key, f"defers the family `{label}` of the dependent table `{htable}`")
+    # (c) discards in the handler
+    discards = [(meth, c, tup) for meth, c, tup in _pair_sites(ctx, f, pair_sets)
+                if meth in ("discard", "remove") and _inside(pm, c, handler)]
+    ctx.require(discards, "the cycle handler discards no dependency pair")
+    for key, (meth, c, tup) in ordinal_keys(discards, lambda s: f"{STC}:cycle-handler:discards-only-deferred"):
+        loc = f"{f.module.path}:{c.lineno}"
+        if isinstance(tup, ast.Name):
+            # a whole reported edge: must happen together with (under the same guards as) a deferral
+            st = enclosing_stmt(pm, c)
+            blk = block_of(pm, st)[2] or []
+            together = any(any(d is x for x in ast.walk(s2)) for s2 in blk for d in dsites)
+            ctx.check(together, key,
+                      f"the reported edge `{tup.id}` is discarded without a deferral in the same block: the constraints that "
+                      f"produced it stay inline and unordered",
+                      f"edge `{tup.id}` discarded together with a deferral", loc)
+            continue
+        pre = [e.id for e in tup.elts if isinstance(e, ast.Name) and e.id != htable]
+        ctx.require(len(pre) == 1, f"discarded pair `{unparse(tup)}` not understood")
+        chain_ok = False
+        src = None
+        # the prerequisite derives from a constraint variable; that variable iterates a deferred collection
+        for n2, v2, st2 in name_stores(handler):
+            if n2 == pre[0] and isinstance(v2, ast.Attribute) and v2.attr == "referred_table" and isinstance(v2.value, ast.Name):
+                cv = v2.value.id
+                for n3, v3, st3 in name_stores(handler):
+                    if n3 == cv and v3 is None and isinstance(st3, ast.For) and _inside(pm, c, st3):
+                        src = st3.iter
+        if src is None:
+            for a in _anc(pm, c):
+                if isinstance(a, ast.For) and isinstance(a.target, ast.Name) and any(
+                        isinstance(x, ast.Attribute) and x.attr == "referred_table" and isinstance(x.value, ast.Name) and x.value.id == a.target.id
+                        for x in ast.walk(tup)):
+                    src = a.iter
+        ctx.require(src is not None, f"cannot find the constraint loop around `{unparse(c)}`")
+        if isinstance(src, ast.Name) and src.id in deferred_names:
+            chain_ok = True
+        elif isinstance(src, ast.Name) and src.id == R_:
+            chain_ok = True
+        else:
+            # the same loop defers each member before its pair is discarded (on every path of an iteration)
+            loop = next(a for a in _anc(pm, c) if isinstance(a, ast.For) and a.iter is src)
+            dn = [n.id for n in g.nodes if n.kind == "stmt" and n.stmt is not None and isinstance(loop.target, ast.Name)
+                  and is_defer(n.stmt, loop.target.id) and _inside(pm, n.stmt, loop)]
+            lh = g.nodes_for(loop)
+            tn = g.nodes_for(enclosing_stmt(pm, c))
+            if dn and len(lh) == 1 and tn:
+                chain_ok = g.must_pass(lh, tn, dn) is None
+        ctx.check(chain_ok, key,
+                  f"pairs are discarded for the constraints in `{unparse(src)[:50]}`, which is not the collection that is "
+                  f"deferred to `{R_}` ({sorted(deferred_names)}): a constraint that stays inline loses its ordering pair",
+                  f"pairs discarded exactly for the deferred collection `{unparse(src)[:40]}`", loc)
+    # (d) a constraint the handler leaves inline keeps its pair
+    skip_set = {frozenset(conj) for conj in skip_conj}
+    inline_but_paired = []
+    for c, exc_atoms in deferred_cond_atoms:
+        for conj in exc_atoms:
+            # the excluded constraints satisfy `conj`; fine when they never contributed a pair (some skip conjunction
+            # of the dependency-building loop is implied), i.e. a skip conjunction is a subset of conj
+            if not any(set(sk) <= set(conj) and sk for sk in skip_conj):
+                inline_but_paired.append(conj)
+    key = f"{STC}:cycle-handler:edge-kept-for-inline-constraints"
+    if not inline_but_paired:
+        ctx.ok(key, "every constraint the handler does not defer contributed no pair (or nothing is excluded)")
+    else:
+        # compensation: pairs re-added / discards guarded by something computed from the non-deferred constraints
+        comp = []
+        for meth, c, tup in _pair_sites(ctx, f, pair_sets):
+            if _inside(pm, c, handler) and meth in ("add", "update"):
+                # pairs (re-)added for the constraints of the table that are not deferred
+                srcs = [a.iter for a in _anc(pm, c) if isinstance(a, ast.For) and _inside(pm, a, handler)]
+                srcs += [gen.iter for x in ast.walk(c) if isinstance(x, (ast.GeneratorExp, ast.ListComp, ast.SetComp)) for gen in x.generators]
+                conds = [t for t, p in lexical_guards(pm, enclosing_stmt(pm, c), stop=handler)]
+                if any(FKCS in unparse(e) for e in srcs) and any(
+                        R_ in {x.id for x in ast.walk(e) if isinstance(x, ast.Name)} for e in srcs + conds):
+                    comp.append(c)
+        for meth, c, tup in discards:
+            for t, p in lexical_guards(pm, enclosing_stmt(pm, c), stop=handler):
+                names = {n.id for n in ast.walk(t) if isinstance(n, ast.Name)}
+                for nm in names:
+                    for n2, v2, st2 in name_stores(handler):
+                        if n2 == nm and v2 is not None and FKCS in unparse(v2) and R_ in {x.id for x in ast.walk(v2) if isinstance(x, ast.Name)}:
+                            comp.append(c)
+        desc_ = "; ".join(" and ".join(t if p else f"not ({t})" for t, p in conj) for conj in inline_but_paired).replace(C_, "fkc")
+        if comp:
+            ctx.ok(key, f"constraints left inline ({desc_}) are compensated at line(s) {sorted({c.lineno for c in comp})}")
+        else:
+            ctx.violation(key,
+                          f"the cycle handler does not defer constraints with `{desc_}`; such a constraint is no skip case of the "
+                          f"dependency loop (it contributed the pair (referred table, {htable})) and stays inline, yet the pair is "
+                          f"discarded as soon as a deferred constraint of the same table refers to the same table: the table can "
+                          f"be created before / dropped after the table its inline constraint references",
+                          f"{f.module.path}:{handler.lineno}")
+    # (e) the result partitions the constraints: inline list = all - deferred, ALTER list = deferred
+    inc_ok, why = False, "per-table entry not found"
+    for t in ast.walk(ret.value):
+        if isinstance(t, ast.Tuple) and len(t.elts) == 2 and isinstance(t.elts[0], ast.Name):
+            e = t.elts[1]
+            tv = t.elts[0].id
+            if isinstance(e, ast.Call) and isinstance(e.func, ast.Attribute) and e.func.attr == "difference" \
+                    and _is_fkcs_of(e.func.value, tv) and len(e.args) == 1 and isinstance(e.args[0], ast.Name):
+                inc_ok = e.args[0].id == R_
+                why = f"inline list is `{unparse(e)}`, ALTER list is `{R_}`"
+            elif isinstance(e, ast.BinOp) and isinstance(e.op, ast.Sub) and _is_fkcs_of(e.left, tv) and isinstance(e.right, ast.Name):
+                inc_ok = e.right.id == R_
+                why = f"inline list is `{unparse(e)}`, ALTER list is `{R_}`"
+            elif isinstance(e, (ast.ListComp, ast.SetComp)) and len(e.generators) == 1 and _is_fkcs_of(e.generators[0].iter, tv):
+                conds = [a for t_ in e.generators[0].ifs for a in test_atoms(t_, True)]
+                cv = e.generators[0].target.id if isinstance(e.generators[0].target, ast.Name) else "?"
+                inc_ok = conds == [(f"{cv} in {R_}", False)]
+                why = f"inline list is `{unparse(e)[:60]}`, ALTER list is `{R_}`"
+            else:
+                why = f"inline list `{unparse(e)[:60]}` is not `<table>.{FKCS}` minus `{R_}`"
+    ctx.check(inc_ok, f"{STC}:result-partitions-constraints",
+              f"the per-table inline list and the (None, ..) ALTER list are not complementary: {why} (a constraint would be "
+              f"emitted twice or never)", why, f"{f.module.path}:{ret.lineno}")
+
+
+def _anc(pm, node):
+    cur = pm.get(node)
+    while cur is not None:
+        yield cur
+        cur = pm.get(cur)
+
+
+# ------------------------------------------------------------------ R5: every constraint is emitted exactly once
+COMPILER = "sql/compiler.py"
+INCLUDE_KW = "include_foreign_key_constraints"
+
+
+def _kwarg(call, name):
+    return next((k.value for k in call.keywords if k.arg == name), None)
+
+
+def _only_rebound_to_none_under(ctx, fn, pname):
+    """guards [(atoms)] under which parameter `pname` is rebound inside fn; every rebinding must be `= None`"""
+    pm = fn.module.parents()
+    out = []
+    for n, v, st in name_stores(fn.node):
+        if n != pname:
+            continue
+        ctx.require(v is not None and isinstance(v, ast.Constant) and v.value is None,
+                    f"{fn.qualname}: `{pname}` is rebound to something other than None (`{unparse(st)[:60]}`)")
+        out.append(guard_atoms(lexical_guards(pm, st, stop=fn.node)))
+    return out
+
+
+@R.rule("C14-R5", floor=7, template="T-FLOW/T-SIBLING",
+        desc="every foreign key constraint is emitted by exactly one of CREATE TABLE and ALTER TABLE ADD CONSTRAINT: the "
+             "inline list computed by the sort reaches DDLCompiler.create_table_constraints unchanged "
+             "(visit_metadata -> visit_table -> CreateTable -> visit_create_table), the constraints omitted from CREATE "
+             "TABLE are exactly the table's constraints that are not in that list, and the no-ALTER fallback "
+             "switches both emitters together")
+def r5(ctx):
+    # 1. visit_metadata forwards the per-table list
+    vm = ctx.func(f"{DDL}::SchemaGenerator.visit_metadata")
+    ctx.functions_analysed.add(vm.key)
+    pm = vm.module.parents()
+    hit = None
+    for n in walk_local(vm.node):
+        if isinstance(n, ast.For) and isinstance(n.target, ast.Tuple) and len(n.target.elts) == 2 \
+                and all(isinstance(e, ast.Name) for e in n.target.elts):
+            tvar, fvar = (e.id for e in n.target.elts)
+            for c in calls_in(n):
+                if (call_name(c) or "").endswith("traverse_single") and c.args and isinstance(c.args[0], ast.Name) and c.args[0].id == tvar:
+                    hit = (n, c, tvar, fvar)
+    ctx.require(hit is not None, "SchemaGenerator.visit_metadata: no traverse_single(<table>, ..) in a loop over (table, constraints)")
+    loop, c, tvar, fvar = hit
+    kw = _kwarg(c, INCLUDE_KW)
+    ctx.check(isinstance(kw, ast.Name) and kw.id == fvar, f"{vm.key}:include-list-forwarded",
+              f"CREATE TABLE of `{tvar}` is not given the inline constraint list of its (table, constraints) entry "
+              f"({INCLUDE_KW}={unparse(kw) if kw is not None else 'missing'}): constraints deferred to ALTER are also rendered inline",
+              f"{INCLUDE_KW}={fvar}", f"{vm.module.path}:{c.lineno}")
+    # 2. visit_table hands it to CreateTable; it may only be reset to None, under the no-ALTER guard
+    vt = ctx.func(f"{DDL}::SchemaGenerator.visit_table")
+    ctx.functions_analysed.add(vt.key)
+    ctx.require(INCLUDE_KW in vt.params, f"SchemaGenerator.visit_table has no parameter {INCLUDE_KW}")
+    resets = _only_rebound_to_none_under(ctx, vt, INCLUDE_KW)
+    ct_calls = [c2 for c2 in calls_in(vt.node) if (call_name(c2) or "").rsplit(".", 1)[-1] == "CreateTable"]
+    ctx.require(ct_calls, "SchemaGenerator.visit_table does not construct CreateTable")
+    fwd = all(isinstance(_kwarg(c2, INCLUDE_KW), ast.Name) and _kwarg(c2, INCLUDE_KW).id == INCLUDE_KW for c2 in ct_calls)
+    ctx.check(fwd, f"{vt.key}:include-list-forwarded",
+              f"CreateTable is not constructed with {INCLUDE_KW}=<the list visit_table received>",
+              f"CreateTable(.., {INCLUDE_KW}={INCLUDE_KW})", f"{vt.module.path}:{ct_calls[0].lineno}")
+    # 3. the no-ALTER fallback: inline everything <=> the ALTER emitter does nothing
+    vf = ctx.func(f"{DDL}::SchemaGenerator.visit_foreign_key_constraint")
+    ctx.functions_analysed.add(vf.key)
+    g = ctx.cfg(vf)
+    emit = [n.id for n in g.nodes if n.stmt is not None and isinstance(n.stmt, ast.stmt) and n.kind in ("stmt", "with_enter")
+            and any((call_name(c2) or "").rsplit(".", 1)[-1] == "AddConstraint" for part in own_exprs_(n.stmt) for c2 in calls_in(part))]
+    ctx.require(emit, "SchemaGenerator.visit_foreign_key_constraint does not emit AddConstraint")
+    emit_guards = set(guard_atoms(g.edge_guards(emit[0])))
+    reset_atoms = {frozenset(a) for a in resets}
+    # reset happens under atoms A (all true); emission must be dominated by the negation of exactly that condition
+    agree = len(reset_atoms) == 1 and all(len(a) == 1 for a in reset_atoms) and \
+        {(t, not p) for a in reset_atoms for t, p in a} <= emit_guards
+    ctx.check(agree, f"{DDL}::SchemaGenerator:no-alter-fallback-agrees",
+              f"visit_table discards the inline list (renders every constraint inline) under {sorted(map(sorted, reset_atoms))} but "
+              f"visit_foreign_key_constraint emits ALTER TABLE ADD CONSTRAINT under {sorted(emit_guards)}: the two conditions are "
+              f"not complementary, so on some dialect a deferred constraint is emitted twice or never",
+              f"inline-everything under {sorted(map(sorted, reset_atoms))}; ALTER only under {sorted(emit_guards)}", vf.loc)
+    # 4. CreateTable stores the list
+    ci = ctx.func(f"{DDL}::CreateTable.__init__")
+    ctx.functions_analysed.add(ci.key)
+    from ..astutil import attr_stores
+    stored = [getattr(st, "value", None) for d, _t, st in attr_stores(ci.node) if d == f"self.{INCLUDE_KW}"]
+    ctx.check(len(stored) >= 1 and all(isinstance(v, ast.Name) and v.id == INCLUDE_KW for v in stored),
+              f"{ci.key}:include-list-stored",
+              f"CreateTable.__init__ does not store its {INCLUDE_KW} argument unchanged as self.{INCLUDE_KW} "
+              f"({[unparse(v)[:40] if v is not None else '?' for v in stored]})",
+              f"self.{INCLUDE_KW} = {INCLUDE_KW}", ci.loc)
+    # 5. every visit_create_table in the package hands create.include_foreign_key_constraints to create_table_constraints
+    base = ctx.index.cls(f"{COMPILER}::DDLCompiler")
+    ctc = ctx.method(base.key, "create_table_constraints")
+    ctx.require(len(ctc.params) >= 3, "create_table_constraints signature changed")
+    inc_p = next((p_ for p_ in ctc.params if "include" in p_), None)
+    ctx.require(inc_p is not None, "create_table_constraints has no include-list parameter")
+    impls = []
+    for k in [base] + list(ctx.index.subclasses(base)):
+        m_ = k.methods.get("visit_create_table")
+        if m_ is not None and not m_.type_only:
+            impls.append(m_)
+    ctx.require(impls, "no visit_create_table implementation")
+    for m_ in impls:
+        ctx.functions_analysed.add(m_.key)
+        create_p = m_.params[1] if len(m_.params) > 1 else None
+        calls = [c2 for c2 in calls_in(m_.node) if (call_name(c2) or "").endswith("create_table_constraints")]
+        sup = [c2 for c2 in calls_in(m_.node) if (call_name(c2) or "").endswith("visit_create_table")]
+        if not calls and sup:
+            ctx.ok(f"{m_.key}:include-list-forwarded", "delegates to the inherited visit_create_table", nontrivial=False)
+            continue
+        ctx.require(calls, f"{m_.key} neither calls create_table_constraints nor delegates")
+        ok = all(dotted(_kwarg(c2, inc_p) or arg_for(c2, ctc, inc_p) or ast.Constant(value=None)) == f"{create_p}.{INCLUDE_KW}" for c2 in calls)
+        ctx.check(ok, f"{m_.key}:include-list-forwarded",
+                  f"create_table_constraints is not called with {inc_p}={create_p}.{INCLUDE_KW}: the inline list of the "
+                  f"CreateTable construct is ignored",
+                  f"{inc_p}={create_p}.{INCLUDE_KW}", f"{m_.module.path}:{calls[0].lineno}")
+    # 6./7. every create_table_constraints implementation: omitted = table's constraints minus the include list, exactly
+    cimpls = []
+    for k in [base] + list(ctx.index.subclasses(base)):
+        m_ = k.methods.get("create_table_constraints")
+        if m_ is not None and not m_.type_only:
+            cimpls.append(m_)
+    for m_ in cimpls:
+        ctx.functions_analysed.add(m_.key)
+        if m_ is not ctc and any((call_name(c2) or "").endswith("create_table_constraints") for c2 in calls_in(m_.node)):
+            ctx.ok(f"{m_.key}:omitted-is-exact-complement", "delegates to the inherited create_table_constraints", nontrivial=False)
+            continue
+        _omit_rule(ctx, m_)
+
+
+def own_exprs_(st):
+    from ..astutil import own_exprs
+    return own_exprs(st)
+
+
+def _omit_rule(ctx, m_):
+    pm = m_.module.parents()
+    table_p = m_.params[1]
+    inc_p = next((p_ for p_ in m_.params if "include" in p_), None)
+    ctx.require(inc_p is not None, f"{m_.key}: no include-list parameter")
+    # the name tested by `c not in <omit>` in the rendered-constraint filter
+    omit = None
+    for n in walk_local(m_.node):
+        if isinstance(n, (ast.ListComp, ast.GeneratorExp, ast.SetComp)):
+            for gen in n.generators:
+                for t in gen.ifs:
+                    for text, pol in test_atoms(t, True):
+                        pass
+                    for sub_ in ast.walk(t):
+                        if isinstance(sub_, ast.Compare) and len(sub_.ops) == 1 and isinstance(sub_.ops[0], ast.NotIn) \
+                                and isinstance(sub_.left, ast.Name) and isinstance(gen.target, ast.Name) and sub_.left.id == gen.target.id \
+                                and isinstance(sub_.comparators[0], ast.Name):
+                            cand = sub_.comparators[0].id
+                            if cand in m_.params:
+                                continue   # membership in the include list itself (used to BUILD the omitted set)
+                            # must be a positive conjunct of the filter
+                            if (unparse(ast.Compare(left=sub_.left, ops=[ast.In()], comparators=sub_.comparators)), False) in test_atoms(t, True):
+                                omit = (cand, n, gen)
+    key7 = f"{m_.key}:omitted-not-rendered"
+    key6 = f"{m_.key}:omitted-is-exact-complement"
+    if omit is None:
+        ctx.violation(key7, "no filter `<constraint> not in <omitted set>` guards the constraints rendered inside CREATE TABLE: "
+                            "constraints deferred to ALTER TABLE are rendered inline as well", m_.loc)
+        ctx.violation(key6, "cannot be established: no omitted set is consulted", m_.loc)
+        return
+    oname, comp, gen = omit
+    ctx.ok(key7, f"rendered constraints are filtered by `not in {oname}`")
+    binds = [(v, st) for n, v, st in name_stores(m_.node) if n == oname]
+    ctx.require(binds and all(v is not None for v, _ in binds), f"{m_.key}: bindings of `{oname}` not understood")
+    given, absent = [], []
+    for v, st in binds:
+        atoms = guard_atoms(lexical_guards(pm, st, stop=m_.node))
+        if (f"{inc_p} is None", False) in atoms:
+            given.append((v, st))
+        elif (f"{inc_p} is None", True) in atoms:
+            absent.append((v, st))
+        else:
+            given.append((v, st))
+            absent.append((v, st))
+    ctx.require(given, f"{m_.key}: `{oname}` is not bound on the path where an include list is given")
+    problems = []
+    for v, st in given:
+        problems += _complement_problems(ctx, m_, v, table_p, inc_p)
+    for v, st in absent:
+        if (v, st) in given:
+            continue
+        empty = (isinstance(v, ast.Call) and call_name(v) in ("set", "frozenset") and not v.args) or \
+            (isinstance(v, (ast.Tuple, ast.List, ast.Set)) and not v.elts)
+        if not empty:
+            problems.append(f"without an include list `{oname}` is `{unparse(v)[:40]}` instead of empty")
+    ctx.check(not problems, key6,
+              "the set of constraints omitted from CREATE TABLE is not exactly <table>.foreign_key_constraints minus the "
+              "include list: " + "; ".join(problems) + ". SchemaGenerator.visit_metadata emits every constraint outside the "
+              "include list through ALTER TABLE ADD CONSTRAINT and no other, so the two sides disagree (constraint created "
+              "twice, or never)",
+              f"`{oname}` = {table_p}.{FKCS} - {inc_p} when a list is given, empty otherwise", f"{m_.module.path}:{binds[0][1].lineno}")
+
+
+def _complement_problems(ctx, m_, v, table_p, inc_p, depth=0):
+    """[] when `v` == <table>.foreign_key_constraints minus <include list>, else reasons"""
+    def is_all(e, d=0):
+        if _is_fkcs_of(e, table_p):
+            return True
+        if isinstance(e, ast.Call) and isinstance(e.func, ast.Name) and e.func.id in ("set", "list", "frozenset", "tuple") and len(e.args) == 1:
+            return is_all(e.args[0], d)
+        if isinstance(e, ast.Name) and d < 3:
+            b = [vv for n, vv, st in name_stores(m_.node) if n == e.id]
+            return bool(b) and all(vv is not None and is_all(vv, d + 1) for vv in b)
+        return False
+
+    def is_inc(e):
+        if isinstance(e, ast.Name) and e.id == inc_p:
+            return True
+        return isinstance(e, ast.Call) and isinstance(e.func, ast.Name) and e.func.id in ("set", "list", "frozenset", "tuple") \
+            and len(e.args) == 1 and is_inc(e.args[0])
+
+    if depth > 3:
+        return [f"`{unparse(v)[:40]}` not understood"]
+    if isinstance(v, ast.Call) and isinstance(v.func, ast.Attribute) and v.func.attr == "difference" and len(v.args) == 1:
+        out = []
+        if not is_all(v.func.value):
+            out.append(f"`{unparse(v.func.value)[:40]}` is not all of {table_p}.{FKCS}")
+        if not is_inc(v.args[0]):
+            out.append(f"`{unparse(v.args[0])[:40]}` is subtracted instead of the include list `{inc_p}`")
+        return out
+    if isinstance(v, ast.BinOp) and isinstance(v.op, ast.Sub):
+        out = []
+        if not is_all(v.left):
+            out.append(f"`{unparse(v.left)[:40]}` is not all of {table_p}.{FKCS}")
+        if not is_inc(v.right):
+            out.append(f"`{unparse(v.right)[:40]}` is subtracted instead of the include list `{inc_p}`")
+        return out
+    if isinstance(v, (ast.SetComp, ast.ListComp, ast.GeneratorExp)) and len(v.generators) == 1 \
+            and isinstance(v.elt, ast.Name) and isinstance(v.generators[0].target, ast.Name) and v.elt.id == v.generators[0].target.id:
+        gen = v.generators[0]
+        cv = gen.target.id
+        atoms = [a for t in gen.ifs for a in test_atoms(t, True)]
+        member = (f"{cv} in {inc_p}", False)
+        if is_all(gen.iter):
+            extra = [a for a in atoms if a != member]
+            out = []
+            if member not in atoms:
+                out.append(f"no `{cv} not in {inc_p}` filter")
+            if extra:
+                out.append("a constraint outside the include list is omitted only when `"
+                           + " and ".join(t if p else f"not ({t})" for t, p in extra) + "`, otherwise it is still rendered inline")
+            return out
+        inner = _complement_problems(ctx, m_, gen.iter, table_p, inc_p, depth + 1)
+        if atoms:
+            inner = inner + ["a constraint outside the include list is omitted only when `"
+                             + " and ".join(t if p else f"not ({t})" for t, p in atoms) + "`, otherwise it is still rendered inline"]
+        return inner
+    if isinstance(v, ast.Call) and isinstance(v.func, ast.Name) and v.func.id in ("set", "frozenset", "list") and len(v.args) == 1:
+        return _complement_problems(ctx, m_, v.args[0], table_p, inc_p, depth + 1)
+    if isinstance(v, ast.Name):
+        b = [vv for n, vv, st in name_stores(m_.node) if n == v.id]
+        if len(b) == 1 and b[0] is not None:
+            return _complement_problems(ctx, m_, b[0], table_p, inc_p, depth + 1)
+    ctx.require(False, f"{m_.key}: omitted set `{unparse(v)[:60]}` not understood")
+
+
 # ---------------------------------------------------------------------- self-test battery
 R.mutant("fk-pair-swapped", DDL,
          sub("                mutable_dependencies.add((dependent_on, table))", "                mutable_dependencies.add((table, dependent_on))"), "C14-R1")
@@ -403,6 +1054,104 @@ R.mutant("sorted-tables-from-set", "sql/schema.py",
 R.mutant("sort-receives-set", DDL,
          sub("                fixed_dependencies.union(mutable_dependencies),\n                tables,\n            )\n        )\n    except",
              "                fixed_dependencies.union(mutable_dependencies),\n                set(tables),\n            )\n        )\n    except"), "C14-R3")
+# R4
+def _seed_one_constraint_per_pair(src: str) -> str:
+    """essence of seeded change C14/1: the handler defers the ONE constraint remembered per dependency pair"""
+    from ..report import MutantNotApplicable
+    edits = [
+        ("    remaining_fkcs = set()\n    for table in tables:\n",
+         "    remaining_fkcs = set()\n    fkc_for_pair = {}\n    for table in tables:\n"),
+        ("            if dependent_on is not table:\n                mutable_dependencies.add((dependent_on, table))\n\n",
+         "            if dependent_on is not table:\n                mutable_dependencies.add((dependent_on, table))\n"
+         "                fkc_for_pair[(dependent_on, table)] = fkc\n\n"),
+        ("                can_remove = [\n                    fkc\n                    for fkc in table.foreign_key_constraints\n"
+         "                    if filter_fn is None or filter_fn(fkc) is not False\n                ]\n"
+         "                remaining_fkcs.update(can_remove)\n                for fkc in can_remove:\n"
+         "                    dependent_on = fkc.referred_table\n                    if dependent_on is not table:\n"
+         "                        mutable_dependencies.discard((dependent_on, table))\n",
+         "                fkc = fkc_for_pair[edge]\n                if filter_fn is None or filter_fn(fkc) is not False:\n"
+         "                    remaining_fkcs.add(fkc)\n                    mutable_dependencies.discard(edge)\n"),
+    ]
+    for old, new in edits:
+        if src.count(old) != 1:
+            raise MutantNotApplicable("anchor text not found")
+        src = src.replace(old, new)
+    return src
+
+
+def _benign_constraints_indexed_per_pair(src: str) -> str:
+    """behaviour-preserving neighbour of C14/1: ALL constraints are indexed per pair and the handler defers every
+    member of the index entry"""
+    from ..report import MutantNotApplicable
+    edits = [
+        ("    remaining_fkcs = set()\n    for table in tables:\n",
+         "    remaining_fkcs = set()\n    fkcs_for_pair = {}\n    for table in tables:\n"),
+        ("            if dependent_on is not table:\n                mutable_dependencies.add((dependent_on, table))\n\n",
+         "            if dependent_on is not table:\n                mutable_dependencies.add((dependent_on, table))\n"
+         "                fkcs_for_pair.setdefault((dependent_on, table), []).append(fkc)\n\n"),
+        ("                can_remove = [\n                    fkc\n                    for fkc in table.foreign_key_constraints\n"
+         "                    if filter_fn is None or filter_fn(fkc) is not False\n                ]\n"
+         "                remaining_fkcs.update(can_remove)\n                for fkc in can_remove:\n"
+         "                    dependent_on = fkc.referred_table\n                    if dependent_on is not table:\n"
+         "                        mutable_dependencies.discard((dependent_on, table))\n",
+         "                members = fkcs_for_pair[edge]\n"
+         "                if all(filter_fn is None or filter_fn(fkc) is not False for fkc in members):\n"
+         "                    remaining_fkcs.update(members)\n                    mutable_dependencies.discard(edge)\n"),
+    ]
+    for old, new in edits:
+        if src.count(old) != 1:
+            raise MutantNotApplicable("anchor text not found")
+        src = src.replace(old, new)
+    return src
+
+
+R.mutant("handler-defers-one-constraint-per-pair", DDL, _seed_one_constraint_per_pair, "C14-R4")
+R.mutant("use-alter-constraint-not-deferred", DDL,
+         sub("            if fkc.use_alter is True:\n                remaining_fkcs.add(fkc)\n                continue\n",
+             "            if fkc.use_alter is True:\n                continue\n"), "C14-R4")
+R.mutant("filtered-constraint-not-deferred", DDL,
+         sub("                if filtered is True:\n                    remaining_fkcs.add(fkc)\n                    continue\n",
+             "                if filtered is True:\n                    continue\n"), "C14-R4")
+R.mutant("handler-discards-pairs-of-all-constraints", DDL,
+         sub("                for fkc in can_remove:\n                    dependent_on = fkc.referred_table\n",
+             "                for fkc in table.foreign_key_constraints:\n                    dependent_on = fkc.referred_table\n"), "C14-R4")
+R.mutant("result-inline-list-keeps-deferred", DDL,
+         sub("        (table, table.foreign_key_constraints.difference(remaining_fkcs))\n", "        (table, set(table.foreign_key_constraints))\n"), "C14-R4")
+R.mutant("benign-handler-indexes-all-constraints-per-pair", DDL, _benign_constraints_indexed_per_pair, None)
+R.mutant("benign-handler-defers-in-loop", DDL,
+         sub("                remaining_fkcs.update(can_remove)\n                for fkc in can_remove:\n                    dependent_on = fkc.referred_table\n",
+             "                for fkc in can_remove:\n                    remaining_fkcs.add(fkc)\n                    dependent_on = fkc.referred_table\n"), None)
+R.mutant("benign-rename-can-remove", DDL,
+         lambda src: src.replace("can_remove", "deferrable") if "can_remove" in src else src, None)
+# R5
+R.mutant("self-referential-fk-never-omitted", COMPILER,
+         sub("            omit_fkcs = all_fkcs.difference(_include_foreign_key_constraints)\n",
+             "            omit_fkcs = {\n                fkc\n                for fkc in all_fkcs.difference(_include_foreign_key_constraints)\n"
+             "                if fkc.referred_table is not table\n            }\n"), "C14-R5")
+R.mutant("omit-only-named-constraints", COMPILER,
+         sub("            omit_fkcs = all_fkcs.difference(_include_foreign_key_constraints)\n",
+             "            omit_fkcs = {c for c in all_fkcs if c not in _include_foreign_key_constraints and c.name is not None}\n"), "C14-R5")
+R.mutant("omitted-set-not-consulted", COMPILER,
+         sub("                if c is not table.primary_key and c not in omit_fkcs\n", "                if c is not table.primary_key\n"), "C14-R5")
+R.mutant("visit-metadata-drops-include-list", DDL,
+         sub("                        create_ok=True,\n                        include_foreign_key_constraints=fkcs,\n", "                        create_ok=True,\n"), "C14-R5")
+R.mutant("fallback-guard-flipped", DDL,
+         sub("            if not self.dialect.supports_alter:\n                # e.g., don't omit any foreign key constraints\n",
+             "            if self.dialect.supports_alter:\n                # e.g., don't omit any foreign key constraints\n"), "C14-R5")
+R.mutant("alter-emitter-ignores-supports-alter", DDL,
+         sub("    def visit_foreign_key_constraint(self, constraint):\n        if not self.dialect.supports_alter:\n            return\n\n        with self.with_ddl_events(constraint):\n            AddConstraint(",
+             "    def visit_foreign_key_constraint(self, constraint):\n        with self.with_ddl_events(constraint):\n            AddConstraint("), "C14-R5")
+R.mutant("create-table-forgets-include-list", DDL,
+         sub("        self.include_foreign_key_constraints = include_foreign_key_constraints\n", "        self.include_foreign_key_constraints = None\n"), "C14-R5")
+R.mutant("compiler-ignores-include-list", COMPILER,
+         sub("            _include_foreign_key_constraints=create.include_foreign_key_constraints,  # noqa\n",
+             "            _include_foreign_key_constraints=None,\n"), "C14-R5")
+R.mutant("benign-omit-by-set-subtraction", COMPILER,
+         sub("            omit_fkcs = all_fkcs.difference(_include_foreign_key_constraints)\n",
+             "            omit_fkcs = set(all_fkcs) - set(_include_foreign_key_constraints)\n"), None)
+R.mutant("benign-omit-by-comprehension", COMPILER,
+         sub("            omit_fkcs = all_fkcs.difference(_include_foreign_key_constraints)\n",
+             "            omit_fkcs = {c for c in all_fkcs if c not in _include_foreign_key_constraints}\n"), None)
 # benign
 R.mutant("benign-rename-dependent-on", DDL,
          sub("            dependent_on = fkc.referred_table\n            if dependent_on is not table:\n                mutable_dependencies.add((dependent_on, table))",
